@@ -47,7 +47,7 @@ def main():
         else:
             # last resort: a three-way merge against the blobs the patch names (needs the object store: a throw-away worktree)
             ok3 = False
-            if not in_place and "--base" not in sys.argv:
+            if not in_place and "--base" not in sys.argv and "--3way" in sys.argv:   # opt-in: a clean textual merge can still be a broken program (a rename merged with a later fix), look at the result
                 wt = os.path.join(scratch, "wt")
                 if subprocess.run(["git", "-C", REPO, "worktree", "add", "-f", "--detach", wt, "HEAD"], capture_output=True).returncode == 0:
                     try:
